@@ -269,6 +269,31 @@ def _retarget(stmts, make_result):
   return out, False
 
 
+def _drop_self_assignments(stmts):
+  """x = x left behind by inlining (`return x` of a helper whose result goes
+  back into x) is removed; an else arm that becomes empty disappears"""
+  out = []
+  for s in stmts:
+    if isinstance(s, ast.Assign) and len(s.targets) == 1 and isinstance(
+        s.targets[0], ast.Name) and isinstance(s.value, ast.Name) and \
+        s.value.id == s.targets[0].id:
+      continue
+    if isinstance(s, ast.If):
+      s.body = _drop_self_assignments(s.body)
+      s.orelse = _drop_self_assignments(s.orelse)
+      if not s.body and not s.orelse:
+        continue
+      if not s.body:
+        from .model import _negate
+        s.test = _negate(s.test)
+        s.body, s.orelse = s.orelse, []
+    elif isinstance(s, (ast.For, ast.While, ast.With)):
+      s.body = _drop_self_assignments(s.body) or [ast.copy_location(
+          ast.Pass(), s)]
+    out.append(s)
+  return out
+
+
 class _Inliner(object):
 
   def __init__(self, tree, known):
@@ -299,9 +324,38 @@ class _Inliner(object):
       return fn, not static
     return None, False
 
+  @staticmethod
+  def _relocate(stmts, call):
+    """inlined statements are positioned AT the call (same line, increasing
+    columns in execution order): rules order statements by position, and a
+    report on inlined code belongs to the caller's line"""
+    k = [getattr(call, 'col_offset', 0) * 1000]
+
+    def visit(n):
+      if hasattr(n, 'lineno') or isinstance(n, (ast.stmt, ast.expr)):
+        n.lineno = call.lineno
+        n.end_lineno = call.lineno
+        k[0] += 1
+        n.col_offset = k[0]
+        n.end_col_offset = k[0]
+      for c in ast.iter_child_nodes(n):
+        visit(c)
+    for s in stmts:
+      visit(s)
+    return stmts
+
   # -- one call ------------------------------------------------------------
   def expand(self, call, caller, cls, target=None, as_return=False,
              keep_names=()):
+    r = self._expand(call, caller, cls, target, as_return, keep_names)
+    if r is not None:
+      self._relocate(r[0], call)
+      if r[1] is not None:
+        self._relocate([r[1]], call)
+    return r
+
+  def _expand(self, call, caller, cls, target=None, as_return=False,
+              keep_names=()):
     """(statements, result expression) for `call`, or None"""
     fn, is_method = self.helper_of(call, cls)
     if fn is None or fn is caller:
@@ -375,7 +429,7 @@ class _Inliner(object):
             targets=[ast.Name(id=rn, ctx=ast.Store())], value=e), at)]
       res = ast.Name(id=rn, ctx=ast.Load())
     new, _ = _retarget(body, mk)
-    stmts = pre + new
+    stmts = pre + _drop_self_assignments(new)
     for s in stmts:
       ast.fix_missing_locations(s)
     return stmts, res
